@@ -568,6 +568,15 @@ def doFinishCb (d : State M) (t : TxnId) (r : M.σ × Out) : State M × Out :=
   if d.txn ≠ some t then (d, .errTxn)
   else ({ d with txn := none, changes := r.1 }, r.2)
 
+/-- DemoStorage.tpc_abort when `changes.tpc_abort` raises (`r` = what the changes storage does, e.g.
+    `TwoPC.doAbortFault`): `_transaction` is already `None`, and the lock release sits in a `finally`
+    (fix 39c0c67), so the DemoStorage commit lock is freed although the error propagates.  Outside
+    `step`, as `TwoPC.doAbortFault`. -/
+def doAbortFault (d : State M) (t : TxnId) (r : M.σ × Out) : State M × Out :=
+  if d.txn ≠ some t then (d, .ok)
+  else ({ d with txn := none, commitLock := none, changes := r.1 }, r.2)
+
+/-- DemoStorage.tpc_abort: `_transaction = None`, delegate, release the lock (in a `finally`) -/
 def doAbort (d : State M) (op : Op) (t : TxnId) : State M × Out :=
   if d.txn ≠ some t then (d, .ok)
   else let r := M.step d.changes op; ({ d with txn := none, commitLock := none, changes := r.1 }, r.2)
